@@ -229,6 +229,7 @@ fn main() {
         "states = datasets as vectors of tagged rows (record tag 100*(sample+1)+feature, weight 0.5+sample) with target kind, CountedTargets wrapper, names and record memory order; \
          seeds: n in {0,1,2,3,5,6} x f in {1,3} x targets {1-d labels i mod 3, 1-d labels i (thorough), 2-d one column, 2-d two columns} x weights {none, all} x names {none, all}; \
          plus layout seeds (n in {1,3,5}; quick {3,5}): record / target / weight arrays as slice_move out of a larger allocation, reversed rows of a reversed copy, every second row of an allocation whose other rows hold poison, column-major (records and 2-d targets) - each alone and all together; the layout is hidden state of the successors that keep the source's arrays; any poison value in any result is a violation; \
+         plus seeds (n in {2,3,5,6}) whose weights hold exact zeros / ties: one sample at 0, a whole class at 0, all 0, all 1; in every returned dataset labels() (method syntax), label_set() and label_frequencies() are compared with the labels / weight sums of its own targets; \
          plus seeds whose targets have element type bool / &'static str / String / i64 (the operations linfa defines for that type); \
          plus single transitions on datasets of 1025 (thorough: and 4097) rows x 2 features (standard, every-second-row, column-major): both splits at all ratios, shuffle, bootstrap_samples(n and 1025), bootstrap_features, with_labels, one_vs_all / target_iter, sample_chunks(1, 1024, 1025, n), sample_iter, feature_iter, to_owned, map_targets, fold(3); \
          actions (real API, on the owned value and on .view()): owned and view split_with_ratio for r in {0,.25,1/3,.5,.7,1} (both parts successors), shuffle, bootstrap_samples(m=1..3, and two consecutive items), \
@@ -265,6 +266,25 @@ fn main() {
             }
         }
     }
+    // ---- weight vectors with exact zeros and ties (a sample / a whole class / everything at weight 0, all ones)
+    let before_w = seeds.len();
+    let wp_fs: &[usize] = if ctx.quick() { &[1] } else { &[1, 3] };
+    for &n in &[2usize, 3, 5, 6] {
+        for &f in wp_fs {
+            for t in ["ix1", "ix2x1", "ix2x2"] {
+                for pat in ["one_zero", "class_zero", "all_zero", "all_one"] {
+                    if ctx.quick() && n == 6 && pat != "class_zero" {
+                        continue;
+                    }
+                    let s = with_weight_pattern(seed(n, f, t, "cyc", true, false), pat);
+                    if !seeds.contains(&s) {
+                        seeds.push(s);
+                    }
+                }
+            }
+        }
+    }
+    let n_weight_seeds = seeds.len() - before_w;
     // ---- memory layouts: the same logical datasets with every container in a non-standard layout
     let tight = seeds.len();
     let mut combos: Vec<(Lay, Lay, Lay)> = Vec::new();
@@ -320,6 +340,7 @@ fn main() {
         }
     }
     ctx.extra("seeds", json!(seeds.len()));
+    ctx.extra("seeds_with_zero_or_tied_weights", json!(n_weight_seeds));
     ctx.extra("seeds_with_non_standard_memory_layout", json!(n_layout_seeds));
     ctx.extra("seeds_with_other_target_element_types", json!(seeds.len() - before_types));
 
@@ -353,6 +374,10 @@ fn main() {
             }
             for (lr, lt, lw) in lays {
                 let mut m = seed(n, 2, t, "cyc", true, true);
+                if lr == Lay::Std {
+                    // the standard-layout member carries a whole class at weight 0
+                    m = with_weight_pattern(m, "class_zero");
+                }
                 m.lr = lr;
                 m.lt = if lt == Lay::ColMajor && !m.t2 { Lay::Std } else { lt };
                 m.lw = lw;
